@@ -297,6 +297,27 @@ pub fn check_iteration(acc: &mut Acc, entry: &str, section: &[u8], mut it: v2::T
         }
         acc.eval(n as u64 + 1);
     }
+    if !small {
+        // long sections: the positional forms from the start only, at the first, middle and last items and one past
+        let n = expected.len();
+        for k in [0usize, 1, 2, 7, 8, 9, n / 2, n.saturating_sub(2), n.saturating_sub(1), n] {
+            let a = {
+                let mut c = it;
+                c.nth(k)
+            };
+            let b = it.skip(k).next();
+            acc.eval(2);
+            if !item_matches(&a, expected.get(k), section) || !item_matches(&b, expected.get(k), section) {
+                acc.violation("adaptor-disagrees-with-next", entry, format!("item {} of {} through nth / skip", k, n), "a different item or None".into());
+                return;
+            }
+        }
+        let c = it.count();
+        if c != n {
+            acc.violation("adaptor-disagrees-with-next", entry, format!("count() = {}", n), format!("{}", c));
+            return;
+        }
+    }
     while steps <= cap + 1 {
         if small {
             // the provided Iterator methods on a copy of the cursor must continue from the cursor, not restart
